@@ -126,6 +126,9 @@ def run(tier, seed):
                         {"engine": "hist", "guard": "cache_fault", "case": {k_: h[k_] for k_ in h if not k_.startswith('_')}, "want": want})
     v.cov["cache_fault_histories"] = len(fhist)
     v.assumptions += ["source threads <= MaxFrames frames (exhaustive within the configuration)"]
+    # the repository's own tests as drivers: every recorded execution against the monitor half of System.tla
+    from .. import suite
+    suite.check(v, wd)
     return v.finish(
         rule="cases = (distinct store state, branch/handoff request) pairs: every selector class of Threads.tla!OpsFor; "
              "non-trivial = the source thread has at least one frame beyond its creation; distinct by (state path, op descriptor)",
@@ -136,6 +139,9 @@ def replay(path, seed):
     with open(path) as f:
         rep = json.load(f)
     case = rep["case"]
+    if case.get("engine") == "suite":
+        from .. import suite
+        return suite.replay(PROP, path, case)
     wd = workdir(PROP + "-replay")
     if case.get("engine") == "hist" and case.get("guard") == "cache_fault":
         r = run_harness("hist", [case["case"]], wd, "replay")[0]
